@@ -409,7 +409,7 @@ func (s *Scope) Provide(constructor interface{}, opts ...ProvideOption) error {
 	}
 	if ctype.Kind() != reflect.Func {
 		return newErrInvalidInput(
-			fmt.Sprintf("must provide constructor function, got %v (type %v)", constructor, ctype), nil)
+			fmt.Sprintf("must provide constructor function, got %v (type %v)", describeValue(constructor), ctype), nil)
 	}
 	if reflect.ValueOf(constructor).IsNil() {
 		return newErrInvalidInput(
